@@ -1205,6 +1205,20 @@ impl Monitors {
         }
         let Some(oa) = &rec.obs_after else { return };
         let Some(ob) = &rec.obs_before else { return };
+        // the ring holds exactly the last bytes accepted by write, in order (growing it must not lose,
+        // duplicate or reorder anything; bytes leave it only from the front, when acknowledged)
+        if let Some(wh) = &w.writer {
+            let ring = wh.verif_ring_contents();
+            let start = w.written.saturating_sub(ring.len() as u64);
+            if ring.len() as u64 > w.written || ring.iter().enumerate().any(|(i, b)| *b != coded(start + i as u64, SALT_EP)) {
+                v.push(f(
+                    "C19",
+                    "tx-buffer-content",
+                    "txbuf/ring-content-differs-from-accepted-bytes",
+                    format!("the TX ring holds {} bytes that are not the last {} bytes accepted by write ({} accepted in total): bytes were lost, duplicated or reordered", ring.len(), ring.len(), w.written),
+                ));
+            }
+        }
         let limit = w.cfg.tx_init.max(w.cfg.tx_max) as u64;
         // acknowledged = cumulatively or selectively (the library releases a selectively acknowledged
         // segment from the ring as soon as everything before it is acknowledged too)
